@@ -100,9 +100,29 @@ def run(chk):
         try:
             written = {1 if _eval_bool(opname_err(t), env) else 0 for _, t in writes}
             removed = set()
-            for _, t in unlinks:
+            for c, t in unlinks:
                 e = opname_err(t)
-                if e is not None:
+                if e is None:
+                    continue
+                # the removal only counts if it is guaranteed: every enclosing condition must be decidable from the
+                # kind of operator being stored (a condition on the cache content, for instance, is not: the previous
+                # operator may be unloaded)
+                guaranteed = True
+                for iff in ast.walk(fset.node):
+                    if not isinstance(iff, ast.If):
+                        continue
+                    in_body = any(m is c for b in iff.body for m in ast.walk(b))
+                    in_else = any(m is c for b in iff.orelse for m in ast.walk(b))
+                    if not (in_body or in_else):
+                        continue
+                    try:
+                        val = _eval_bool(iff.test, env)
+                    except KeyError:
+                        guaranteed = False
+                        break
+                    if (in_body and not val) or (in_else and val):
+                        guaranteed = False
+                if guaranteed:
                     removed.add(1 if _eval_bool(e, env) else 0)
         except KeyError as ex:
             chk.need(False, f"cannot evaluate the err= argument {ex} of operator_name in __setitem__")
